@@ -28,6 +28,7 @@ META = {
         "coincides with the property on all 46 234 permutations of length <= 8 (time budget hit = inconclusive). "
         "Non-trivial: the learned output is non-empty and has a pattern of length >= 2 or a non-empty shading. "
         "Distinct = case content."
+        " Sparse n = 6 inputs: all permutations of length <= 2, half of length 3, one to six members of length 4-6."
     ),
     "no_shrink": ["auto"],
     "assumptions": [
